@@ -1594,6 +1594,158 @@ fn part_b(out: &mut Outcome) {
 }
 
 // ---------------------------------------------------------------------------------------------
+// part C: every row and reference contained in a room definition is signature-checked on receipt
+// ---------------------------------------------------------------------------------------------
+
+/// the contained items of a room definition, addressed by (list, index path)
+fn room_items(rn: &discret::verif::database::room_node::RoomNode) -> Vec<(String, Vec<usize>)> {
+    let mut v = vec![("room-row".to_string(), vec![])];
+    for i in 0..rn.admin_nodes.len() {
+        v.push(("admin-entry".into(), vec![i]));
+    }
+    for i in 0..rn.admin_edges.len() {
+        v.push(("admin-reference".into(), vec![i]));
+    }
+    for i in 0..rn.auth_edges.len() {
+        v.push(("group-reference".into(), vec![i]));
+    }
+    for (g, a) in rn.auth_nodes.iter().enumerate() {
+        v.push(("group-row".into(), vec![g]));
+        for i in 0..a.user_nodes.len() {
+            v.push(("user-entry".into(), vec![g, i]));
+        }
+        for i in 0..a.user_edges.len() {
+            v.push(("user-reference".into(), vec![g, i]));
+        }
+        for i in 0..a.right_nodes.len() {
+            v.push(("right-entry".into(), vec![g, i]));
+        }
+        for i in 0..a.right_edges.len() {
+            v.push(("right-reference".into(), vec![g, i]));
+        }
+        for i in 0..a.user_admin_nodes.len() {
+            v.push(("user-admin-entry".into(), vec![g, i]));
+        }
+        for i in 0..a.user_admin_edges.len() {
+            v.push(("user-admin-reference".into(), vec![g, i]));
+        }
+    }
+    v
+}
+
+enum ItemMut<'a> {
+    N(&'a mut Node),
+    E(&'a mut Edge),
+}
+
+fn room_item_mut<'a>(rn: &'a mut discret::verif::database::room_node::RoomNode, list: &str, path: &[usize]) -> ItemMut<'a> {
+    match list {
+        "room-row" => ItemMut::N(&mut rn.node),
+        "admin-entry" => ItemMut::N(&mut rn.admin_nodes[path[0]].node),
+        "admin-reference" => ItemMut::E(&mut rn.admin_edges[path[0]]),
+        "group-reference" => ItemMut::E(&mut rn.auth_edges[path[0]]),
+        "group-row" => ItemMut::N(&mut rn.auth_nodes[path[0]].node),
+        "user-entry" => ItemMut::N(&mut rn.auth_nodes[path[0]].user_nodes[path[1]].node),
+        "user-reference" => ItemMut::E(&mut rn.auth_nodes[path[0]].user_edges[path[1]]),
+        "right-entry" => ItemMut::N(&mut rn.auth_nodes[path[0]].right_nodes[path[1]].node),
+        "right-reference" => ItemMut::E(&mut rn.auth_nodes[path[0]].right_edges[path[1]]),
+        "user-admin-entry" => ItemMut::N(&mut rn.auth_nodes[path[0]].user_admin_nodes[path[1]].node),
+        "user-admin-reference" => ItemMut::E(&mut rn.auth_nodes[path[0]].user_admin_edges[path[1]]),
+        _ => unreachable!(),
+    }
+}
+
+const ROOM_TAMPERS: [&str; 4] = ["signature-bit-flipped", "content-changed-after-signing", "key-replaced", "date-changed-after-signing"];
+
+async fn part_c_run(root: &PathBuf, out: &mut Outcome, only: Option<(&str, &str)>) -> Result<(), String> {
+    use crate::rooms::REvent;
+    use discret::verif::signature_verification_service::SignatureVerificationService;
+    set_clock(tick(0));
+    let u = Universe::start(root).await?;
+    // a definition with every list populated: two administrators, two groups, users, rights, user administrators
+    let mut room = u
+        .create_room(
+            0,
+            tick(0),
+            &[
+                (vec![("ns.P", true, false), ("ns.Q", true, true)], vec![1, 2], vec![1]),
+                (vec![("*", true, false)], vec![3], vec![2, 3]),
+            ],
+        )
+        .await?;
+    if !u.apply_event(&mut room, &REvent::AddAdmin { key: 1, enabled: true }, 0, tick(4)).await? {
+        return Err("part C: honest event refused".into());
+    }
+    let export = u.peers[0].db.get_room_node(room.id).await.map_err(|e| e.to_string())?.ok_or("part C: no export")?;
+    let export: discret::verif::database::room_node::RoomNode = bincode::deserialize(&bincode::serialize(&export).map_err(|e| e.to_string())?).map_err(|e| e.to_string())?;
+    // the honest definition passes, directly and through the service of a receiving instance
+    out.evaluations += 1;
+    if let Err(e) = SignatureVerificationService::room_check(export.clone()) {
+        out.violation("C:room-definition:honest:refused".to_string(), format!("the honest room definition fails its signature check: {}", e), json!({"part": "C", "item": "honest"}));
+    }
+    let other_key = u.keys[3].clone();
+    let items = room_items(&export);
+    let mut lists: BTreeSet<String> = BTreeSet::new();
+    for (list, path) in &items {
+        lists.insert(list.clone());
+        for tamper in ROOM_TAMPERS {
+            if let Some((l, t)) = only {
+                if l != list || t != tamper {
+                    continue;
+                }
+            }
+            let mut x = export.clone();
+            match room_item_mut(&mut x, list, path) {
+                ItemMut::N(n) => match tamper {
+                    "signature-bit-flipped" => n._signature[7] ^= 0x10,
+                    "content-changed-after-signing" => {
+                        let mut v: Value = serde_json::from_str(n._json.as_deref().unwrap_or("{}")).unwrap_or(json!({}));
+                        v["32"] = json!("changed after signing");
+                        n._json = Some(v.to_string());
+                    }
+                    "key-replaced" => n.verifying_key = other_key.clone(),
+                    _ => n.mdate += 1,
+                },
+                ItemMut::E(e) => match tamper {
+                    "signature-bit-flipped" => e.signature[7] ^= 0x10,
+                    "content-changed-after-signing" => e.dest[0] ^= 1,
+                    "key-replaced" => e.verifying_key = other_key.clone(),
+                    _ => e.cdate += 1,
+                },
+            }
+            out.evaluations += 1;
+            out.transitions += 2;
+            let direct = SignatureVerificationService::room_check(x.clone()).is_ok();
+            let service = u.peers[1].services.signature_verification.verify_room_node(x).await.is_ok();
+            let verdict = if direct || service { "accepted" } else { "refused" };
+            out.count(&format!("C:{}:{}", list, verdict));
+            out.state(&("C", list, tamper, verdict));
+            out.nontrivial(&("C", list, verdict));
+            if direct || service {
+                out.violation(
+                    format!("C:room-definition:{}:{}:accepted", list, tamper),
+                    format!("a room definition whose {} (position {:?}) is {} passes the signature check of a receiving instance (direct: {}, service: {})", list, path, tamper, direct, service),
+                    json!({"part": "C", "item": list, "tamper": tamper}),
+                );
+            }
+        }
+    }
+    if only.is_none() && lists.len() != 11 {
+        out.machinery_errors.push(format!("part C: the fixture definition populates {} of 11 lists", lists.len()));
+    }
+    Ok(())
+}
+
+fn part_c(out: &mut Outcome, only: Option<(&str, &str)>) {
+    let root = scratch_root();
+    let _g = ScratchGuard(root.clone());
+    let rt = runtime();
+    if let Err(e) = rt.block_on(part_c_run(&root, out, only)) {
+        out.machinery_errors.push(format!("part C: {}", e));
+    }
+}
+
+// ---------------------------------------------------------------------------------------------
 // replay, run
 // ---------------------------------------------------------------------------------------------
 
@@ -1650,6 +1802,11 @@ fn replay(path: &str) -> i32 {
                     Err(e) => format!("machinery error: {}", e),
                 }
             }
+            "C" => {
+                let mut out = Outcome::default();
+                part_c(&mut out, Some((r["item"].as_str().unwrap_or(""), r["tamper"].as_str().unwrap_or(""))));
+                format!("violations: {:?} errors: {:?}", out.violations.iter().map(|v| format!("{} :: {}", v.key, v.what)).collect::<Vec<_>>(), out.machinery_errors)
+            }
             other => format!("unknown replay part {:?}", other),
         };
         println!("replay round {}: {}", round, line);
@@ -1678,6 +1835,9 @@ pub fn run(args: &Args) -> i32 {
     let t_a = start.elapsed().as_secs_f64();
     if !only_a {
         part_b(&mut out);
+    }
+    if !only_a && !only_b {
+        part_c(&mut out, None);
     }
     out.notes.push(format!("part A {:.1}s, part B {:.1}s", t_a, start.elapsed().as_secs_f64() - t_a));
     // every evaluation ran the real sign()/verify()/serving code: there is no separate model run
